@@ -344,6 +344,16 @@ func runC03(c *Check) {
 		}
 		c.Floor("R3.4", "StartSession calls in "+name, n, 1)
 	}
+	// the datastore holding the persisted results is used only under dsLk (concurrent calls for
+	// different heights share it), every lock is released on all paths, nothing blocks under it
+	la := newLockAnalysis(p, "share/availability/light")
+	ng := la.checkGuarded(c, "R3.4", guardRule{modPath + "/share/availability/light", "ShareAvailability", []string{"ds"}, "light.ShareAvailability.dsLk",
+		"the datastore of sampling results is shared by concurrent availability calls, pruning and Close", map[string]string{"light.NewShareAvailability": "constructor"}})
+	c.Floor("R3.4", "accesses of ShareAvailability.ds", ng, 5)
+	for _, f := range la.funcs {
+		la.checkReleasedAtReturns(c, "R3.4", f)
+	}
+	la.checkNoBlockingUnderLock(c, "R3.4", nil)
 	// R3.5
 	idxSl := backSlice(idxsArg, SliceOpt{CallArgs: true})
 	c.Ob("R3.5", "requested coordinates are Remaining", idxSl.HasFieldNamed("SamplingResult", "Remaining"), p.Pos(get.Pos()), "the coordinates handed to the getter are built from SamplingResult.Remaining")
